@@ -1,0 +1,106 @@
+//go:build verif
+
+package main
+
+import (
+	"fmt"
+	"mltwist/internal/riscv"
+	"mltwist/pkg/model"
+	"strings"
+)
+
+// Parsers are cached per (variant, extension set): building a matcher is
+// comparatively expensive.
+var rvParsers = map[string]riscv.Parser{}
+
+func rvParser(variant string, exts string) riscv.Parser {
+	key := variant + "/" + exts
+	if p, ok := rvParsers[key]; ok {
+		return p
+	}
+	var v riscv.Variant
+	switch variant {
+	case "32":
+		v = riscv.Variant32
+	case "64":
+		v = riscv.Variant64
+	default:
+		panic(parseError("bad variant"))
+	}
+	var es []riscv.Extension
+	for _, c := range exts {
+		switch c {
+		case 'i':
+		case 'm':
+			es = append(es, riscv.ExtM)
+		case 'a':
+			es = append(es, riscv.ExtA)
+		default:
+			panic(parseError("bad extension"))
+		}
+	}
+	p := riscv.NewParser(v, es...)
+	rvParsers[key] = p
+	return p
+}
+
+func fmtText(s string) string {
+	// Printable ASCII without spaces is kept, everything else is escaped, so
+	// that the text stays one token.
+	var sb strings.Builder
+	for _, b := range []byte(s) {
+		if b > 0x20 && b < 0x7f && b != '%' {
+			sb.WriteByte(b)
+		} else {
+			fmt.Fprintf(&sb, "%%%02x", b)
+		}
+	}
+	if sb.Len() == 0 {
+		return "%"
+	}
+	return sb.String()
+}
+
+func init() {
+	// rvtable <32|64> => <n> then per entry:
+	//   <ext> <idx> <name> <bytes> <mask> <inregs> <outreg> <ld> <st> <imm> <type>
+	register("rvtable", func(t *tokens) string {
+		var v riscv.Variant
+		switch t.next() {
+		case "32":
+			v = riscv.Variant32
+		case "64":
+			v = riscv.Variant64
+		default:
+			panic(parseError("bad variant"))
+		}
+		es := riscv.VerifTable(v)
+		var sb strings.Builder
+		fmt.Fprintf(&sb, "%d", len(es))
+		for _, e := range es {
+			fmt.Fprintf(&sb, " %d %d %s %s %s %d %s %d %d %d %d", e.Extension, e.Index,
+				fmtText(e.Name), fmtHex(e.Bytes), fmtHex(e.Mask), e.InputRegCnt,
+				fmtBool(e.HasOutputReg), e.LoadBytes, e.StoreBytes, e.Immediate, e.InstrType)
+		}
+		return sb.String()
+	})
+
+	// rvparse <32|64> <exts: i, im, ia, ima> <addr> <hex bytes>
+	//   => err:short | err:unknown | ok <name> <type> <bytelen> <text> <effects>
+	register("rvparse", func(t *tokens) string {
+		variant := t.next()
+		exts := t.next()
+		addr := t.uint()
+		bs := t.hex()
+		p := rvParser(variant, exts)
+		ins, err := p.Parse(model.Addr(addr), bs)
+		if err != nil {
+			if len(bs) < 4 {
+				return "err:short"
+			}
+			return "err:unknown"
+		}
+		return fmt.Sprintf("ok %s %d %d %s %s", fmtText(ins.Details.Name()), ins.Type, ins.ByteLen,
+			fmtText(ins.Details.String()), fmtEffects(ins.Effects))
+	})
+}
